@@ -7,6 +7,7 @@ package key
 //@ extern (*Group).GetGenesisSeed(g) (r)
 //@   trusted lazily caches Hash() in g.GenesisSeed; touches nothing else
 //@   modifies g.GenesisSeed
+//@   ensures r == g.GenesisSeed
 
 //@ func (*Group).Node(g, i) (n)
 //@   props C03 C07
